@@ -3,6 +3,8 @@
      pkg/slo-controller/nodeslo/resource_strategy.go     calculate*CfgMerged, get*Spec (first match)
      pkg/slo-controller/nodeslo/nodeslo_cm_event_handler.go   syncConfig (absent / parse error / value)
      pkg/slo-controller/config/configmap_event_handler.go     Create / Update / Delete filters
+   pkg/slo-controller/nodeslo/nodeslo_controller.go         getNodeSLOSpec (per-section rendering, the node's own
+                                                            bandwidth annotation), Reconcile (NodeSLO life cycle)
    Executable, total, no proofs in this file.
 
    A configuration value of one of the Go strategy types is a tree:
@@ -147,6 +149,19 @@ Definition sel_matches (ls : labels) (s : selector) : option bool :=
 Definition selects (ls : labels) (s : selector) : bool :=
   match sel_matches ls s with Some true => true | _ => false end.
 
+(* ---------- a node: its labels and its own node.koordinator.sh/network-bandwidth annotation ---------- *)
+Inductive bw :=
+| BwNone                  (* no annotation *)
+| BwVal (q : Z)           (* a quantity (its integer value) *)
+| BwBad.                  (* present but resource.ParseQuantity fails *)
+Record node := mkNode { n_labels : labels; n_bw : bw }.
+
+(* ---------- the text of one section: a JSON document with characters around it ----------
+   json.Unmarshal accepts exactly ONE value, surrounded by JSON white space only (space, \n, \t, \r
+   = codes 0..3); any other character before or after the value makes the whole text unparsable. *)
+Definition is_ws (c : Z) : bool := (0 <=? c) && (c <=? 3).
+Definition frame_ok (lead trail : list Z) : bool := forallb is_ws lead && forallb is_ws trail.
+
 (* ---------- one section of the ConfigMap ---------- *)
 Record entry := mkEntry { e_sel : selector; e_strat : cfg }.
 
@@ -157,7 +172,16 @@ Inductive section_in :=
 
 (* sd_merge = true: threshold / resourceQOS / cpuBurst / system (default <- cluster <- node entry);
    sd_merge = false: host applications (the matching node entry's list replaces the cluster list) *)
-Record secdef := mkSec { sd_merge : bool; sd_default : cfg }.
+(* sd_bw = Some k: field k of the strategy is the node's total network bandwidth, which the node's own
+   annotation overrides (system section only) *)
+Record secdef := mkSec { sd_merge : bool; sd_bw : option nat; sd_default : cfg }.
+
+(* the parsed form of a section text: document [s] framed by [lead] and [trail] *)
+Definition parse_frame (lead trail : list Z) (s : section_in) : section_in :=
+  match s with
+  | SValue _ _ => if frame_ok lead trail then s else SMalformed
+  | x => x
+  end.
 
 (* the cached, already merged section: SLOCfg.<X>CfgMerged *)
 Record merged := mkMerged { mg_cluster : cfg; mg_entries : list entry }.
@@ -178,15 +202,20 @@ Definition sync_sec (m : mode) (sd : secdef) (old : merged) (s : section_in) : m
   | SValue c es => calc m sd c es
   end.
 
-(* ---------- the handler's cache, the informer cache and the reconciler over ConfigMap events ---------- *)
+(* ---------- the handler's cache, the informer cache and the reconciler over events ---------- *)
 Notation cmap := (list section_in).   (* positional: one per section of [sds]; missing = absent *)
 
 Inductive op :=
 | OSync (c : cmap)              (* Create, or Update with changed Data, of the slo-controller ConfigMap *)
 | OSame (c : cmap)              (* Update with equal Data: the handler ignores the event *)
 | ODelete                       (* Delete: the handler ignores the event; the informer loses the object *)
-| OOther                        (* event for another ConfigMap *)
-| OAvail (c : option cmap).     (* informer content set to [c] (None = not found), explicit IsCfgAvailable() *)
+| OOther                        (* event for another ConfigMap (other name or other namespace) *)
+| OAvail (c : option cmap)      (* informer content set to [c] (None = not found), explicit IsCfgAvailable() *)
+| ORestart                      (* the controller process restarts: fresh handler cache, API objects stay *)
+| ONode (i : nat) (nd : option node)   (* Node i created / updated (Some) or deleted (None) *)
+| ONodeEv (i : nat)             (* a (re-delivered) event for Node i without any change *)
+| OSloDel (i : nat)             (* NodeSLO i deleted by a third party *)
+| OSloEdit (i : nat).           (* NodeSLO i's spec overwritten by a third party *)
 
 (* st_inf: the slo-controller ConfigMap as the informer cache (the client) has it *)
 Record state := mkState { st_secs : list merged; st_avail : bool; st_inf : option cmap }.
@@ -213,14 +242,16 @@ Definition inf_after (inf : option cmap) (o : op) : option cmap :=
   | OSync c => Some c
   | OSame c => Some c
   | ODelete => None
-  | OOther => inf
   | OAvail oc => oc
+  | _ => inf
   end.
 
-(* the event handler (EnqueueRequestForConfigMap.Create/Update/Delete) *)
+(* the event handler (EnqueueRequestForConfigMap.Create/Update/Delete); a restart replaces the
+   handler by a new one (NewSLOCfgHandlerForConfigMapEvent(DefaultSLOCfg())) *)
 Definition handle (m : mode) (sds : list secdef) (st : state) (o : op) : state :=
   match o with
   | OSync c => mkState (sync_secs m sds (st_secs st) c) true (Some c)
+  | ORestart => mkState (map default_of sds) false (st_inf st)
   | _ => mkState (st_secs st) (st_avail st) (inf_after (st_inf st) o)
   end.
 
@@ -250,13 +281,39 @@ Definition effective (ls : labels) (mg : merged) : cfg :=
   | None => mg_cluster mg
   end.
 
-(* the spec computed for every probe node: all sections *)
-Definition computed (nodes : list labels) (st : state) : list (list cfg) :=
-  map (fun ls => map (effective ls) (st_secs st)) nodes.
+Fixpoint set_nth {A} (i : nat) (x : A) (l : list A) : list A :=
+  match l, i with
+  | [], _ => []
+  | _ :: t, O => x :: t
+  | y :: t, S i' => y :: set_nth i' x t
+  end.
 
-Definition observe (nodes : list labels) (st : state) : list cfg := concat (computed nodes st).
+Definition set_field (k : nat) (v : cfg) (c : cfg) : cfg :=
+  match c with
+  | Obj (Some fs) => Obj (Some (set_nth k v fs))
+  | x => x
+  end.
 
-(* ---------- delivery: Reconcile writes the computed spec into the node's NodeSLO ---------- *)
+(* getSystemConfigSpec: the node's own bandwidth annotation overrides the layered value of that one
+   field; an annotation that does not parse makes the renderer return (nil, err): the section is
+   delivered as nil, all other sections are rendered as usual *)
+Definition bw_apply (sd : secdef) (nd : node) (e : cfg) : cfg :=
+  match sd_bw sd, n_bw nd with
+  | Some k, BwVal q => set_field k (Leaf true (Some q)) e
+  | Some _, BwBad => Obj None
+  | _, _ => e
+  end.
+
+Definition render_sec (nd : node) (sd : secdef) (mg : merged) : cfg :=
+  bw_apply sd nd (effective (n_labels nd) mg).
+
+Fixpoint render (nd : node) (sds : list secdef) (mgs : list merged) : list cfg :=
+  match sds, mgs with
+  | sd :: sds', mg :: mgs' => render_sec nd sd mg :: render nd sds' mgs'
+  | _, _ => []
+  end.
+
+(* ---------- delivery: Reconcile creates / updates / deletes the node's NodeSLO ---------- *)
 Definition list_eqb {A} (f : A -> A -> bool) : list A -> list A -> bool :=
   fix go (xs ys : list A) {struct xs} : bool :=
     match xs, ys with
@@ -282,35 +339,138 @@ Fixpoint cfg_eqb (a b : cfg) {struct a} : bool :=
   | _, _ => false
   end.
 
+Notation slo := (option (list cfg)).   (* the NodeSLO object of a node: None = does not exist *)
+
 (* stored = None: the NodeSLO does not exist yet and is created with the computed spec;
    otherwise it is updated iff the computed spec differs from the stored one *)
-Definition deliver_node (stored : option (list cfg)) (c : list cfg) : list cfg :=
+Definition deliver_node (stored : slo) (c : list cfg) : list cfg :=
   match stored with
   | None => c
   | Some s => if list_eqb cfg_eqb c s then s else c
   end.
 
-Fixpoint deliver (stored : list (option (list cfg))) (comp : list (list cfg)) : list (list cfg) :=
-  match comp with
-  | [] => []
-  | c :: ct => deliver_node (hd None stored) c :: deliver (tl stored) ct
+(* Reconcile(node i): the Node is gone -> the NodeSLO is deleted; otherwise created / updated *)
+Definition reconcile_node (sds : list secdef) (mgs : list merged) (nd : option node) (stored : slo) : slo :=
+  match nd with
+  | None => None
+  | Some n => Some (deliver_node stored (render n sds mgs))
   end.
 
-(* the observation after every operation: the spec DELIVERED to every probe node (NodeSLO.Spec) *)
-Fixpoint run_from (m : mode) (sds : list secdef) (nodes : list labels) (st : state)
-  (dl : list (option (list cfg))) (ops : list op) : list (list cfg) :=
+Fixpoint reconcile_all (sds : list secdef) (mgs : list merged) (nodes : list (option node))
+  (stored : list slo) : list slo :=
+  match nodes with
+  | [] => []
+  | nd :: t => reconcile_node sds mgs nd (hd None stored) :: reconcile_all sds mgs t (tl stored)
+  end.
+
+(* the API objects the controller works on *)
+Record world := mkWorld { w_h : state; w_nodes : list (option node); w_slo : list slo }.
+
+Definition nodes_after (nodes : list (option node)) (o : op) : list (option node) :=
+  match o with
+  | ONode i nd => set_nth i nd nodes
+  | _ => nodes
+  end.
+
+(* what third parties do to the NodeSLO objects; an overwritten spec is represented by [Some []],
+   which differs from every computed spec of at least one section *)
+Definition slo_after (stored : list slo) (o : op) : list slo :=
+  match o with
+  | OSloDel i => set_nth i None stored
+  | OSloEdit i => match nth i stored None with Some _ => set_nth i (Some []) stored | None => stored end
+  | _ => stored
+  end.
+
+(* one event, then the reconciliation of every probe node (node events, NodeSLO events and
+   resyncs reconcile nodes at any time) *)
+Definition wstep (m : mode) (sds : list secdef) (w : world) (o : op) : world :=
+  let h := step m sds (w_h w) o in
+  let nodes := nodes_after (w_nodes w) o in
+  mkWorld h nodes (reconcile_all sds (st_secs h) nodes (slo_after (w_slo w) o)).
+
+Definition winit (sds : list secdef) (nodes : list (option node)) : world :=
+  mkWorld (init sds) nodes (map (fun _ => None) nodes).
+
+(* the observation after every operation: the NodeSLO.Spec DELIVERED to every probe node *)
+Fixpoint run_from (m : mode) (sds : list secdef) (w : world) (ops : list op) : list (list slo) :=
   match ops with
   | [] => []
-  | o :: t =>
-      let st' := step m sds st o in
-      let d := deliver dl (computed nodes st') in
-      concat d :: run_from m sds nodes st' (map Some d) t
+  | o :: t => let w' := wstep m sds w o in w_slo w' :: run_from m sds w' t
   end.
 
-Record input := mkInput { in_secs : list secdef; in_nodes : list labels; in_ops : list op }.
+(* ---------- the same history driven ONLY through what the event handlers enqueue ----------
+   (production wiring, SetupWithManager: ConfigMap events -> SLOCfgHandlerForConfigMapEvent, which
+   enqueues every listed Node iff the cache changed; Node events -> EnqueueRequestForNode, which
+   enqueues the node on Create / Delete and on Update iff labels changed; NodeSLO events ->
+   EnqueueRequestForObject; a restarted controller gets a Create event for every existing object) *)
+Definition req_eqb (a b : req) : bool :=
+  (r_key a =? r_key b) && (r_op a =? r_op b) && list_eqb Z.eqb (r_vals a) (r_vals b).
 
-Definition run (m : mode) (i : input) : list (list cfg) :=
-  run_from m (in_secs i) (in_nodes i) (init (in_secs i)) [] (in_ops i).
+Definition sel_eqb (a b : selector) : bool :=
+  match a, b with
+  | None, None => true
+  | Some x, Some y => list_eqb req_eqb x y
+  | _, _ => false
+  end.
+
+Definition entry_eqb (a b : entry) : bool := sel_eqb (e_sel a) (e_sel b) && cfg_eqb (e_strat a) (e_strat b).
+
+Definition merged_eqb (a b : merged) : bool :=
+  cfg_eqb (mg_cluster a) (mg_cluster b) && list_eqb entry_eqb (mg_entries a) (mg_entries b).
+
+Definition labels_eqb (a b : labels) : bool :=
+  list_eqb (fun p q => (fst p =? fst q) && (snd p =? snd q)) a b.
+
+Fixpoint existing {A} (k : nat) (l : list (option A)) : list nat :=
+  match l with
+  | [] => []
+  | Some _ :: t => k :: existing (S k) t
+  | None :: t => existing (S k) t
+  end.
+
+Definition is_some {A} (o : option A) : bool := match o with Some _ => true | None => false end.
+
+(* the requests the handlers put on the work queue for one event; [h] = handler state before the
+   event, [h1] after it *)
+Definition enqueued (h h1 : state) (nodes : list (option node)) (stored : list slo) (o : op) : list nat :=
+  match o with
+  | OSync _ => if list_eqb merged_eqb (st_secs h) (st_secs h1) then [] else existing 0 nodes
+  | ORestart => existing 0 nodes
+  | ONode i (Some nd) =>
+      match nth i nodes None with
+      | Some old => if labels_eqb (n_labels old) (n_labels nd) then [] else [i]
+      | None => [i]
+      end
+  | ONode i None | ONodeEv i => if is_some (nth i nodes None) then [i] else []
+  | OSloDel i | OSloEdit i => if is_some (nth i stored None) then [i] else []
+  | _ => []
+  end.
+
+Definition reconcile_at (sds : list secdef) (mgs : list merged) (nodes : list (option node))
+  (stored : list slo) (i : nat) : list slo :=
+  set_nth i (reconcile_node sds mgs (nth i nodes None) (nth i stored None)) stored.
+
+Definition wstep_strict (m : mode) (sds : list secdef) (w : world) (o : op) : world :=
+  let h1 := handle m sds (w_h w) o in
+  let nodes := nodes_after (w_nodes w) o in
+  let q := enqueued (w_h w) h1 (w_nodes w) (w_slo w) o in
+  let h := if is_nil q then h1 else ensure_avail m sds h1 in
+  mkWorld h nodes (fold_left (reconcile_at sds (st_secs h) nodes) q (slo_after (w_slo w) o)).
+
+Fixpoint run_from_strict (m : mode) (sds : list secdef) (w : world) (ops : list op) : list (list slo) :=
+  match ops with
+  | [] => []
+  | o :: t => let w' := wstep_strict m sds w o in w_slo w' :: run_from_strict m sds w' t
+  end.
+
+(* in_strict = false: after every event every probe node is reconciled;
+   in_strict = true:  only what the handlers enqueue is reconciled *)
+Record input := mkInput { in_secs : list secdef; in_nodes : list (option node); in_strict : bool;
+                          in_ops : list op }.
+
+Definition run (m : mode) (i : input) : list (list slo) :=
+  (if in_strict i then run_from_strict else run_from)
+    m (in_secs i) (winit (in_secs i) (in_nodes i)) (in_ops i).
 
 (* ---------- flat wire encoding of a tree (inputs and observables use the same one) ----------
    0 | 1 v        Leaf false None | Some v          6 | 7 v   Leaf true None | Some v
@@ -327,4 +487,13 @@ Fixpoint enc (c : cfg) : list Z :=
   | Map kvs => 5 :: Z.of_nat (length kvs) :: flat_map (fun kv => [fst kv; snd kv]) kvs
   end.
 
-Definition enc_obs (obs : list (list cfg)) : list Z := flat_map (flat_map enc) obs.
+(* a node without NodeSLO is observed as the single integer -888888 *)
+Definition no_slo : list Z := [-888888].
+
+Definition enc_slo (s : slo) : list Z :=
+  match s with
+  | None => no_slo
+  | Some cs => flat_map enc cs
+  end.
+
+Definition enc_obs (obs : list (list slo)) : list Z := flat_map (flat_map enc_slo) obs.
